@@ -58,6 +58,10 @@ def ob_times(tier):
 
     cases = [(2020, 366, 86399999), (2016, 60, 0), (2019, 1, 0), (2023, 59, 43200500), (2049, 365, 86399999)]
     runs = [api.same_instant(*c) for c in cases]
+    stamps = api.line_stamps()
+    if stamps["reproduced"]:
+        return {"verdict": "violated", "queries": len(runs) + 1, "replays": len(runs) + 1, "cex": stamps,
+                "finding_key": "C17.e2e.stamps:" + ",".join(sorted(stamps["detail"]))}
     bad = [r for r in runs if r["reproduced"]]
     res = {"verdict": "violated" if bad else "discharged", "queries": len(runs), "replays": len(runs)}
     if bad:
